@@ -9,16 +9,15 @@ pub mod t0 {
    ascent! {
       #![generate_run_timeout]
       pub struct Prog;
-      relation r0(i64);
+      relation r0(i64, i64);
       relation r1(i64, i64);
       relation r2(i64, i64, i64);
-      relation r3(i64);
-      r2(v1, v1, v0) <-- r0(3), let v0 = 3, r0(v1);
-      r3(((*v0) + 1)) <-- r2(v0, 2, v1), r1(v1, v2), if ((*v0) < 6);
-      r2(v0, v8, v9) <-- if let Some(v9) = Some(1), r1(v0, v1), r1(v1, v9) let v8 = ((*v0) + 1);
-      r3(v1) <-- r2(2, v0, v1), r0(v0) if ((*v1) != 4), r0(((*v1) + 0)) if ((*v1) < 1), if let Some(v2) = Some((*v1));
-      r2(((*v0) + 1), v1, v0) <-- r2(v0, v1, v2), if ((*v0) < 6);
-      r3(v0) <-- if let Some(v0) = Some(2), r2(v1, 3, v0), r0(v2), if let Some(v3) = Some(v0);
+      relation r3(i64, i64);
+      relation r4(i64, i64);
+      relation r5(i64, i64, i64);
+      r3(v0, v1) <-- r0(v0, v1) if ((*v0) < 5), r3(v1, v2) if ((*v2) != (*v1));
+      r4(v0, v1) <-- for v9 in 0..2, r1(v0, v1), r4(v9, v1);
+      r3(v1, 1) <-- r2(v0, v1, v2) if ((*v2) <= 6), r1(v3, v4), r3(v5, 3);
    }
    pub struct Inst { p: Prog, pool: Option<ascent::rayon::ThreadPool> }
    pub fn make(pool: Option<usize>) -> Box<dyn Driver> {
@@ -29,10 +28,12 @@ pub mod t0 {
    impl Driver for Inst {
       fn load(&mut self, rel: usize, rows: &[Sexp], append: bool) -> Option<()> {
          match rel {
-         0 => { let v: Vec<(i64,)> = parse_rows(rows)?; if append { self.p.r0.extend(v) } else { self.p.r0 = v } },
+         0 => { let v: Vec<(i64,i64,)> = parse_rows(rows)?; if append { self.p.r0.extend(v) } else { self.p.r0 = v } },
          1 => { let v: Vec<(i64,i64,)> = parse_rows(rows)?; if append { self.p.r1.extend(v) } else { self.p.r1 = v } },
          2 => { let v: Vec<(i64,i64,i64,)> = parse_rows(rows)?; if append { self.p.r2.extend(v) } else { self.p.r2 = v } },
-         3 => { let v: Vec<(i64,)> = parse_rows(rows)?; if append { self.p.r3.extend(v) } else { self.p.r3 = v } },
+         3 => { let v: Vec<(i64,i64,)> = parse_rows(rows)?; if append { self.p.r3.extend(v) } else { self.p.r3 = v } },
+         4 => { let v: Vec<(i64,i64,)> = parse_rows(rows)?; if append { self.p.r4.extend(v) } else { self.p.r4 = v } },
+         5 => { let v: Vec<(i64,i64,i64,)> = parse_rows(rows)?; if append { self.p.r5.extend(v) } else { self.p.r5 = v } },
             _ => return None,
          }
          Some(())
@@ -40,7 +41,7 @@ pub mod t0 {
       fn run(&mut self) { match &self.pool { Some(pl) => { let p = &mut self.p; pl.install(|| p.run()) }, None => self.p.run() } }
       fn run_here(&mut self) { self.p.run() }
       fn run_timeout(&mut self, k: usize) -> Option<bool> { ascent::internal::verif::arm_deadline(k); let r = self.p.run_timeout(std::time::Duration::from_secs(1)); ascent::internal::verif::disarm(); Some(r) }
-      fn dump(&self) -> String { vec![dump_rel(0, self.p.r0.iter().map(Row::render).collect()), dump_rel(1, self.p.r1.iter().map(Row::render).collect()), dump_rel(2, self.p.r2.iter().map(Row::render).collect()), dump_rel(3, self.p.r3.iter().map(Row::render).collect())].join(" | ") }
+      fn dump(&self) -> String { vec![dump_rel(0, self.p.r0.iter().map(Row::render).collect()), dump_rel(1, self.p.r1.iter().map(Row::render).collect()), dump_rel(2, self.p.r2.iter().map(Row::render).collect()), dump_rel(3, self.p.r3.iter().map(Row::render).collect()), dump_rel(4, self.p.r4.iter().map(Row::render).collect()), dump_rel(5, self.p.r5.iter().map(Row::render).collect())].join(" | ") }
       fn iters(&self) -> String { format!("iters {}", self.p.scc_iters.iter().map(|x| x.to_string()).collect::<Vec<_>>().join(" ")) }
    }
 }
@@ -55,12 +56,12 @@ pub mod t8 {
       #![generate_run_timeout]
       pub struct Prog;
       relation r0(i64, i64);
-      relation r1(i64);
+      relation r1(i64, i64);
       relation r2(i64, i64);
-      r2(v0, v8) <-- if let Some(v9) = Some(3), r0(v0, v1), r2(v1, v9) let v8 = ((*v0) + 1);
-      r2(v0, v1) <-- r0(v0, v1), r2(((*v0) + 1), v2);
-      r2(v1, ((*v0) + 1)) <-- r0(v0, 0), if let Some(v1) = Some(std::cmp::max((*v0), 3)), if ((*v0) < 6);
-      r2(2, v1) <-- r2(v0, v1) if ((*v1) <= 4);
+      r2(v0, v8) <-- if let Some(v9) = Some(3), r1(v0, v1), r2(v1, v9) let v8 = ((*v0) + 1);
+      r2(v0, v2) <-- r2(v0, v1), r1(v1, v2), r2(v2, v3);
+      r2(((*v0) + 1), v0) <-- r0(v0, 3), r1(v1, v2), r1(v3, v4), if ((*v0) < 6);
+      r2(3, 3);
    }
    pub struct Inst { p: Prog, pool: Option<ascent::rayon::ThreadPool> }
    pub fn make(pool: Option<usize>) -> Box<dyn Driver> {
@@ -72,7 +73,7 @@ pub mod t8 {
       fn load(&mut self, rel: usize, rows: &[Sexp], append: bool) -> Option<()> {
          match rel {
          0 => { let v: Vec<(i64,i64,)> = parse_rows(rows)?; if append { self.p.r0.extend(v) } else { self.p.r0 = v } },
-         1 => { let v: Vec<(i64,)> = parse_rows(rows)?; if append { self.p.r1.extend(v) } else { self.p.r1 = v } },
+         1 => { let v: Vec<(i64,i64,)> = parse_rows(rows)?; if append { self.p.r1.extend(v) } else { self.p.r1 = v } },
          2 => { let v: Vec<(i64,i64,)> = parse_rows(rows)?; if append { self.p.r2.extend(v) } else { self.p.r2 = v } },
             _ => return None,
          }
